@@ -32,7 +32,7 @@ type AcctInfo struct {
 	Composite []byte
 	// Batched: the account lives in a batched wallet and opens with BatchPassphrase.
 	Batched bool
-	idx       int
+	idx     int
 }
 
 // Population is a wallet store with accounts, built once per process and shared by runs.
@@ -80,6 +80,9 @@ type WalletSpec struct {
 	// SameKeyAs: account name -> path of an account created earlier whose key this account holds as well (a key
 	// imported a second time, under another name or into another wallet).
 	SameKeyAs map[string]string
+	// AliasKeyNames: an account that holds another account's key (SameKeyAs) also carries that account's key name, so
+	// that whatever is keyed by key name (the ledger of released signatures) sees one key.
+	AliasKeyNames bool
 	// BatchPass: the wallet's accounts are batched under this passphrase after creation.
 	BatchPass string
 }
@@ -169,6 +172,9 @@ func newPopulationOn(t *testing.T, tag string, specs []WalletSpec, store e2wtype
 				panic(err)
 			}
 			info := &AcctInfo{Wallet: spec.Name, Name: an, Path: spec.Name + "/" + an, PubKey: a.PublicKey().Marshal(), Secret: sec, KName: fmt.Sprintf("k%d", n), Locked: locked, DupKey: dup, idx: n}
+			if dup && spec.AliasKeyNames {
+				info.KName = p.byPath[spec.SameKeyAs[an]].KName
+			}
 			p.Accts = append(p.Accts, info)
 			if !dup {
 				p.byKey[string(info.PubKey)] = info
@@ -242,6 +248,28 @@ var (
 	bigPopOnce sync.Once
 	bigPop     *Population
 )
+
+var (
+	dupPopOnce sync.Once
+	dupPop     *Population
+)
+
+// DupPopulation is four keys held twice: by the accounts of wallet "Primary" and, imported a second time, by the like-named
+// accounts of wallet "Imported" (indices 4-7, carrying the key names of 0-3).
+func DupPopulation(t *testing.T) *Population {
+	dupPopOnce.Do(func() {
+		a := WalletSpec{Name: "Primary", Kind: "nd"}
+		b := WalletSpec{Name: "Imported", Kind: "nd", SameKeyAs: map[string]string{}, AliasKeyNames: true}
+		for i := 0; i < 4; i++ {
+			n := fmt.Sprintf("A%d", i)
+			a.Accounts = append(a.Accounts, n)
+			b.Accounts = append(b.Accounts, n)
+			b.SameKeyAs[n] = "Primary/" + n
+		}
+		dupPop = NewPopulation(t, "dup", []WalletSpec{a, b})
+	})
+	return dupPop
+}
 
 // BigPopulation returns a process-wide population of 523 accounts in one wallet (three with nested names), used by the
 // large-batch checks.  Its fetcher is shared between runs so that accounts are unlocked once.
